@@ -239,6 +239,55 @@ class Ctx:
         self.violations.append({"key": key, "what": what, "replay": replay})
 
 
+    # --- parallel helpers ----------------------------------------------------------------------
+    def export(self) -> dict:
+        return {"evaluations": self.evaluations, "nontrivial_keys": list(self.nontrivial_keys), "samples": self.samples, "branches": self.branches, "traces": self.traces,
+                "disagreements_checked": self.disagreements_checked, "hyp_checked": self.hyp_checked, "hyp_held": self.hyp_held, "ambiguous": self.ambiguous,
+                "breaks": self.breaks, "violations": self.violations, "notes": self.notes, "extra": self.extra}
+
+    def merge(self, d: dict):
+        self.evaluations += d["evaluations"]
+        self.nontrivial_keys |= set(d["nontrivial_keys"])
+        self.samples += d["samples"]
+        for k, v in d["branches"].items():
+            self.branches[k] = self.branches.get(k, 0) + v
+        self.traces += d["traces"]
+        self.disagreements_checked += d["disagreements_checked"]
+        self.hyp_checked += d["hyp_checked"]
+        self.hyp_held += d["hyp_held"]
+        self.ambiguous += d["ambiguous"]
+        self.breaks += d["breaks"]
+        self.violations += d["violations"]
+        self.notes += d["notes"]
+        for k, v in d["extra"].items():
+            if isinstance(v, (int, float)) and isinstance(self.extra.get(k, 0), (int, float)):
+                self.extra[k] = self.extra.get(k, 0) + v
+            else:
+                self.extra.setdefault(k, v)
+
+
+def parallel(ctx: "Ctx", worker, n_items: int, n_workers: int = 12, **kw):
+    """Run `worker(sub_ctx, n, **kw)` in forked processes, each with its own seeded sub-context; merge the results into ctx."""
+    import multiprocessing as mp
+
+    n_workers = max(1, min(n_workers, n_items))
+    shares = [n_items // n_workers + (1 if i < n_items % n_workers else 0) for i in range(n_workers)]
+    seeds = [ctx.rng.randrange(1 << 30) for _ in range(n_workers)]
+    if n_workers == 1:
+        worker(ctx, n_items, **kw)
+        return
+    with mp.get_context("fork").Pool(n_workers) as pool:
+        res = [pool.apply_async(_par_entry, (ctx.prop, ctx.tier, sd, worker, sh, kw)) for sd, sh in zip(seeds, shares)]
+        for r in res:
+            ctx.merge(r.get(timeout=7200))
+
+
+def _par_entry(prop, tier, seed, worker, n, kw):
+    sub = Ctx(prop, tier, seed)
+    worker(sub, n, **kw)
+    return sub.export()
+
+
 def load_findings() -> list[dict]:
     f = VERIF / "known_findings.json"
     if not f.exists():
